@@ -115,31 +115,32 @@ def record_plan(cfg):
         meta["recorder_exception"] = f"{type(exc).__name__}: {exc}"
         ev.append({"t": "built", "ok": 0, "same": 0, "eqltf": eqltf})
         return {"meta": meta, "c": c, "ev": ev}
-    # the analyzer path
+    # the analyzer path: the scheduler selected by name and passed as the callable itself (both are public forms)
     ok = 1
     same = 1
-    try:
-        a = speckit.SpectrumAnalyzer(np.zeros(N), fs, olap=cfg["on"] / cfg["od"], bmin=cfg["bn"] / cfg["bd"],
-                                     Lmin=cfg["Lmin"], Jdes=cfg["Jdes"], Kdes=cfg["Kdes"],
-                                     scheduler=ANALYZER_NAME[cfg["sched"]])
-        pl = a.plan()
-        if int(pl["nf"]) != len(ev):
-            ok = 0
-            meta["analyzer_exception"] = f"analyzer plan has {pl['nf']} bins, scheduler {len(ev)}"
-        else:
-            # the analyzer only forwards the configuration: its plan must be the scheduler's plan
-            for fld in ("f", "r", "L", "K", "navg"):
-                if not np.array_equal(np.asarray(pl[fld]), np.asarray(p[fld]).astype(np.asarray(pl[fld]).dtype)):
-                    same = 0
-                    meta["analyzer_plan_differs_in"] = fld
-                    break
+    from speckit import schedulers as _sch
+    for how, sel in (("name", ANALYZER_NAME[cfg["sched"]]), ("callable", getattr(_sch, SCHEDS[cfg["sched"]]))):
+        try:
+            a = speckit.SpectrumAnalyzer(np.zeros(N), fs, olap=cfg["on"] / cfg["od"], bmin=cfg["bn"] / cfg["bd"],
+                                         Lmin=cfg["Lmin"], Jdes=cfg["Jdes"], Kdes=cfg["Kdes"], scheduler=sel)
+            pl = a.plan()
+            if int(pl["nf"]) != len(ev):
+                ok = 0
+                meta["analyzer_exception"] = f"analyzer ({how}) plan has {pl['nf']} bins, scheduler {len(ev)}"
             else:
-                same = 1 if all(np.array_equal(np.asarray(a_), np.asarray(b_)) for a_, b_ in zip(pl["D"], D)) else 0
-                if not same:
-                    meta["analyzer_plan_differs_in"] = "D"
-    except BaseException as exc:
-        ok = 0
-        meta["analyzer_exception"] = f"{type(exc).__name__}: {exc}"
+                # the analyzer only forwards the configuration: its plan must be the scheduler's plan
+                for fld in ("f", "r", "L", "K", "navg"):
+                    if not np.array_equal(np.asarray(pl[fld]), np.asarray(p[fld]).astype(np.asarray(pl[fld]).dtype)):
+                        same = 0
+                        meta["analyzer_plan_differs_in"] = f"{fld} ({how})"
+                        break
+                else:
+                    if not all(np.array_equal(np.asarray(a_), np.asarray(b_)) for a_, b_ in zip(pl["D"], D)):
+                        same = 0
+                        meta["analyzer_plan_differs_in"] = f"D ({how})"
+        except BaseException as exc:
+            ok = 0
+            meta["analyzer_exception"] = f"({how}) {type(exc).__name__}: {exc}"
     ev.append({"t": "built", "ok": ok, "same": same if ok else 0, "eqltf": eqltf})
     return {"meta": meta, "c": c, "ev": ev}
 
@@ -204,6 +205,20 @@ def grid_configs(tier: str, seed: int, scheds=("lpsd", "ltf", "vectorized", "new
         bn = rnd.randint(bd, max(bd, min((20 if rnd.random() < 0.3 else 8) * bd, (N * bd) // 2 - 1)))
         out.append(mk(N, on, od, bn, bd, rnd.randint(1, N), rnd.choice([1, 2, 3, 5, 7, 20, 100, 300]),
                       rnd.randint(1, 120), rnd.choice(scheds)))
+    # exact ties of the segment count: (N-L)/(xov L) + 1 = k + 1/2 with L = Lmin, so that every bin above the floor sits on the tie
+    # (K = 1 must still mean L = N whichever way the tie is rounded)
+    ties = []
+    for _ in range(240 if tier == "quick" else 2000):
+        od = rnd.choice([20, 100, 50, 25, 10, 3, 7, 64, 33])
+        on = rnd.randint(0, od - 1)
+        m = rnd.randint(1, 40)
+        k = rnd.choice([1, 1, 1, 2, 3])
+        L = 2 * od * m
+        N = L + (2 * k - 1) * (od - on) * m
+        if N > 60000:
+            continue
+        ties.append(mk(N, on, od, 1, 1, L, rnd.choice([5, 20, 100]), rnd.choice([1, 2, 5, 50]), rnd.choice(scheds)))
+    out += ties
     # the same configuration after a call that differed in one parameter only (history independence), and very fine grids
     base = [c for c in out if admissible(c) and c["N"] >= 100][:24 if tier == "quick" else 200]
     for k, c in enumerate(base):
